@@ -355,6 +355,33 @@ func cmdRun(args []string) {
 		die(2, "%v", err)
 	}
 
+	// thorough tier: determinism self-test for this property before any verdict is trusted
+	detSeeds := 0
+	if *tier == "thorough" {
+		detSeeds = 30
+		var ref []string
+		for i, procs := range []string{"1", "4", "16"} {
+			recs, err := worker(bin, scratch, map[string]string{"SIM_MODE": "hashes", "SIM_PROP": *prop, "SIM_TIER": *tier, "SIM_RUNS": fmt.Sprint(detSeeds),
+				"SIM_SEED": fmt.Sprint(seed), "GOMAXPROCS": procs}, 900*time.Second, fmt.Sprintf("det%d", i))
+			if err != nil || len(recs) == 0 {
+				os.RemoveAll(scratch)
+				die(2, "determinism self-test worker failed: %v", err)
+			}
+			var hs []string
+			json.Unmarshal(recs[0]["hashes"], &hs)
+			if i == 0 {
+				ref = hs
+				continue
+			}
+			for k := range ref {
+				if k >= len(hs) || hs[k] != ref[k] {
+					os.RemoveAll(scratch)
+					die(2, "NONDETERMINISM: determinism self-test: run %d differs between GOMAXPROCS=1 and GOMAXPROCS=%s:\n  %s\n  %s", k, procs, ref[k], safeIdx(hs, k))
+				}
+			}
+		}
+	}
+
 	// search
 	type wres struct {
 		recs []map[string]json.RawMessage
@@ -599,6 +626,7 @@ func cmdRun(args []string) {
 			"context_switches": tot.Switches, "simulated_time_s": float64(tot.VTimeNs) / 1e9, "runs_per_hour": runsPerHour,
 			"faults_fired": tot.Faults, "probes": tot.Probes, "probes_at_zero": zero, "strategy_mix": tot.Strategies,
 			"run_end_reasons": tot.Reasons, "components_real": meta.Real, "components_stub": meta.Stub,
+			"determinism_selftest_seeds_x_processes": fmt.Sprintf("%d x 3 (GOMAXPROCS 1/4/16), identical event-log hashes", detSeeds),
 			"worker_processes": *workers, "build_s": buildS, "search_s": searchS, "tree": treeID(),
 		},
 	}
